@@ -39,7 +39,7 @@ MASKS_EXTRA = [b"abcd", b"2|2|", b"\xff\xff\xff\xff"]
 TS = 1700000000                        # mc.vloop.EPOCH: the owned clock
 
 SHORT_ALPHA = ["2", "|", "0", "a", "g", "%", "\xff"]
-EDIT_ALPHA = ["2", "|", "0", "a", "g", "A", "%", "\xff"]
+EDIT_ALPHA = ["2", "|", "0", "a", "g", "A", "%", "\xff", ".", "e"]
 
 UNSAFE = ["POST", "PUT", "DELETE", "PATCH"]
 SAFE = ["GET", "HEAD", "OPTIONS"]
@@ -153,12 +153,23 @@ def make_app(cookie_version):
             self.write("ran")
         get = head = options = post = put = delete = patch = _go
 
+    @web.stream_request_body
+    class StreamAct(web.RequestHandler):
+        """a handler that receives its body in pieces (upload endpoint): the XSRF check applies all the same"""
+        def data_received(self, chunk):
+            pass
+
+        def _go(self):
+            RAN.append(self.request.method)
+            self.write("ran")
+        get = head = options = post = put = delete = patch = _go
+
     class Issue(web.RequestHandler):
         def get(self):
             RAN.append("issue")
             self.write(self.xsrf_token)
 
-    return web.Application([("/act", Act), ("/issue", Issue)], xsrf_cookies=True,
+    return web.Application([("/act", Act), ("/stream", StreamAct), ("/issue", Issue)], xsrf_cookies=True,
                            xsrf_cookie_version=cookie_version)
 
 
@@ -501,6 +512,14 @@ class C24(Check):
                                        (good_t, ""), (bad_t, bad_t), ("", ""), ("zz", good_t)):
                             yield (ver, "misc:two-placements", method, good_c, [(p1, t1), (p2, t2)],
                                    ("tp", p1, p2))
+            # the same through a @stream_request_body handler (header / query placements: the body is not parsed there)
+            for ver in (1, 2):
+                for method in ("POST", "PUT", "GET"):
+                    for ck in (None, good_c):
+                        yield (ver, "misc:no-token@stream", method, ck, [], ("nts", method))
+                        for pl in ("X-XSRFToken", "query"):
+                            for tk in (good_t, bad_t, "zz", ""):
+                                yield (ver, "misc:token@stream", method, ck, [(pl, tk)], ("ts", method, pl))
             weird = ["2|00000000|00|1", "2|00000000|00|+1", "2|00000000|00| 1", "2|00000000|00|1_0",
                      "2|00000000|00|-1", "2|00000000|00|", "2|00000000|00|1|", "2|00000000|00",
                      "2|000000|00|1", "2|0000000000|00|1", "2|0000000g|00|1", "2|00000000|0|1",
@@ -528,7 +547,7 @@ class C24(Check):
         for i, (ver, f, method, ck, toks, nt) in enumerate(self.items(fam, tier, issued)):
             if i % self.NCH != chunk:
                 continue
-            res = run_request(apps[ver], method, ck, toks)
+            res = run_request(apps[ver], method, ck, toks, "/stream" if f.endswith("@stream") else "/act")
             st.ev()
             if len(st.samples) < 1 and i > 40:
                 st.sample({"request": build_request(method, ck, toks), "status": res["status"],
@@ -542,7 +561,8 @@ class C24(Check):
             return "issuance re-run; problems:\n" + "\n".join(st.lines or ["(none)"])
         toks = [tuple(t) for t in case["tokens"]]
         app = make_app(case["app_version"])
-        res = run_request(app, case["method"], case["cookie"], toks)
+        res = run_request(app, case["method"], case["cookie"], toks,
+                          "/stream" if case.get("family", "").endswith("@stream") else "/act")
         eff, nonutf8 = effective(toks)
         v, why = (EITHER, "undecodable-form-field") if nonutf8 else verdict(case["method"], case["cookie"], eff)
         lines = ["app         : xsrf_cookies=True, xsrf_cookie_version=%d" % case["app_version"],
